@@ -3,6 +3,7 @@ import traceback
 import numpy as np
 import scipy.sparse as sps
 from pmc import modspecs as ms
+from pmc.engine import values as val
 from pmc.engine.tol import q as quant
 
 PROPERTY = 'C01'
@@ -142,6 +143,34 @@ class Sweep:
         seeds = ms.basis_seeds(y0, spec.seed_cap)
         if spec.extra_seeds:
             seeds += spec.extra_seeds(y0)
+        # a seed that is a copy of the state of an input of the same shape (the compliance seed of a solver is its load)
+        for k_, y_ in enumerate(y0):
+            if not isinstance(y_, np.ndarray) or y_.ndim == 0:
+                continue
+            src = [s_.state for s_ in sin if isinstance(s_.state, np.ndarray) and s_.state.shape == y_.shape
+                   and (np.iscomplexobj(y_) or not np.iscomplexobj(s_.state))]
+            if src:
+                objs, dens = [None] * len(y0), [None] * len(y0)
+                objs[k_] = np.array(src[0], copy=True)
+                dens[k_] = np.array(src[0], copy=True)
+                seeds.append((f'inputstate_out{k_}', objs, dens))
+                break
+        # sparse-matrix outputs seeded with dyadic sensitivities, as a solver behind them does: a carrier of the right
+        # shape holding NO dyads (what the adjoint of an exactly zero solution is) and one holding two dyads
+        for k_, y_ in enumerate(y0):
+            if sps.issparse(y_) and y_.shape[0] == y_.shape[1]:
+                from pymoto import DyadCarrier
+                r_ = y_.shape[0]
+                objs, dens = [None] * len(y0), [None] * len(y0)
+                objs[k_], dens[k_] = DyadCarrier(shape=y_.shape), np.zeros(y_.shape)
+                seeds.append((f'dyadzero_out{k_}', objs, dens))
+                us = [val.tab(r_, 61, self.seed), val.tab(r_, 62, self.seed)]
+                vs = [val.tab(r_, 63, self.seed), val.tab(r_, 64, self.seed)]
+                objs, dens = [None] * len(y0), [None] * len(y0)
+                objs[k_] = DyadCarrier([u.copy() for u in us], [v.copy() for v in vs])
+                dens[k_] = np.outer(us[0], vs[0]) + np.outer(us[1], vs[1])
+                seeds.append((f'dyadtwo_out{k_}', objs, dens))
+                break
         G = []
         for (label, objs, dens) in seeds:
             for s, o in zip(sout, objs):
